@@ -23,7 +23,7 @@ def child(sid, npseed, niter, hashseed):
 
 def run(ctx: Ctx):
     rng = ctx.rng
-    nsys = ctx.pick(6, 18)
+    nsys = ctx.pick(8, 24)
     seeds = ctx.pick([0, 1, 2, 3, 'random', 'random'], [0, 1, 2, 3, 4, 5, 6, 7, 11, 101, 'random', 'random', 'random', 'random'])
     ctx.rule = ('identical construction code and numpy seed run in separate interpreter processes with PYTHONHASHSEED in {0..N, random}: '
                 'order of System.inputs()/coupling_variables(), drawn samples, training history, full state digest and predictions must '
@@ -32,7 +32,7 @@ def run(ctx: Ctx):
     jobs = []
     for n in range(nsys):
         sid = ctx.seed * 100 + n
-        npseed = rng.randint(0, 10 ** 6); niter = rng.randint(3, 6)
+        npseed = rng.randint(0, 10 ** 6); niter = rng.randint(4, 7)
         for hs in seeds:
             jobs.append((sid, npseed, niter, hs))
     with ThreadPoolExecutor(16) as ex:
@@ -49,14 +49,8 @@ def run(ctx: Ctx):
         ref = runs[0][1]
         ctx.case(case, nontrivial=len(ref['inputs_order']) >= 2 and len(runs) >= 2, kind=f'n_inputs={len(ref["inputs_order"])}')
         for hs, r in runs[1:]:
-            # predictions through a feedback loop are solved to the FPI tolerance (1e-10) and may differ in the last digits with
-            # the evaluation order inside a strongly connected component; the surrogate itself (state digest) is compared exactly
             def same(key):
-                if key != 'prediction':
-                    return r[key] == ref[key]
-                return r[key].keys() == ref[key].keys() and all(
-                    len(a) == len(b) and all(abs(float(x) - float(y)) <= 1e-8 * (1 + abs(float(x))) or x == y for x, y in zip(a, b))
-                    for a, b in ((ref[key][k], r[key][k]) for k in ref[key]))
+                return r[key] == ref[key]
             for key in ('inputs_order', 'coupling_order', 'sample_keys', 'samples', 'history', 'state_digest', 'prediction'):
                 if not same(key):
                     a, b = ref[key], r[key]
